@@ -95,6 +95,8 @@ def run(ctx):
                       (bad["script"], bad["dial"], bad["cancelMs"], bad["result"], bad["durMs"], bad["rec"]),
                       replay={"property": "C09", "trace_spec": "Socks5Trace", "run": [bad]})
         reports += 1
+    if events:
+        vf.selftest_event(ctx, "Socks5Trace", dict(events[0], id=1, durMs=10 ** 7), "duration of an accepted probe set to 10^7 ms")
     for e in events[:3] + events[-2:]:
         ctx.sample(e)
     # socket-level tier: the real binary with -t 300ms against servers that accept and stall - the flag reaches both the connect and the
